@@ -59,8 +59,15 @@ func (s *randomBitStream) drawBits(n int) uint64 {
 // overrunMsg is the invalid-data panic of a bitstream that has no more bits to give.
 const overrunMsg = "overrun"
 
+// exhausted reports whether s has refused to give more bits (and will go on refusing).
+func exhausted(s bitStream) bool {
+	e, ok := s.(interface{ exhausted() bool })
+	return ok && e.exhausted()
+}
+
 type bufBitStream struct {
-	buf []uint64
+	buf     []uint64
+	overrun bool
 	recordedBits
 }
 
@@ -72,10 +79,13 @@ func newBufBitStream(buf []uint64, persist bool) *bufBitStream {
 	return s
 }
 
+func (s *bufBitStream) exhausted() bool { return s.overrun }
+
 func (s *bufBitStream) drawBits(n int) uint64 {
 	assert(n >= 0)
 
 	if len(s.buf) == 0 {
+		s.overrun = true
 		panic(invalidData(overrunMsg))
 	}
 
